@@ -532,9 +532,43 @@ Fixpoint append_inner (polys : list polygon) (k : Z) (inner : ring) : list polyg
   | p :: r => if k =? 0 then (p ++ [inner]) :: r else p :: append_inner r (k - 1) inner
   end.
 
-(** per vertex: add the containing polygons, then look for a single winner *)
-Fixpoint matchVertices (polys : list polygon) (verts : list pt) (counts : list (Z * Z))
-  : res (option Z * list (Z * Z)) :=
+(** cancelledBy (repair of F16): polygon index -> index of the FIRST inner ring that is equal to the polygon's outer ring
+    (ringsAreEqual outer inner true false: same points, opposite direction).  The outer ring is read inside the loop over
+    the inner rings, as in the code (a polygon without rings panics only when there is an inner ring to compare with). *)
+Fixpoint firstEqualInner (p : polygon) (innerRings : list ring) (j : Z) : res (option Z) :=
+  match innerRings with
+  | [] => Ok None
+  | inner :: rest =>
+      do outer <- idx p 0;
+      do e <- ringsAreEqual outer inner true false;
+      if e then Ok (Some j) else firstEqualInner p rest (j + 1)
+  end.
+
+Fixpoint cancelledByFrom (polys : list polygon) (innerRings : list ring) (k : Z) : res (list (Z * Z)) :=
+  match polys with
+  | [] => Ok []
+  | p :: rest =>
+      do t <- firstEqualInner p innerRings 0;
+      do m <- cancelledByFrom rest innerRings (k + 1);
+      Ok (match t with Some j => (k, j) :: m | None => m end)
+  end.
+
+Definition cancelledBy (polys : list polygon) (innerRings : list ring) : res (list (Z * Z)) :=
+  cancelledByFrom polys innerRings 0.
+
+Fixpoint cb_find (m : list (Z * Z)) (k : Z) : option Z :=
+  match m with
+  | [] => None
+  | (k', v) :: r => if k =? k' then Some v else cb_find r k
+  end.
+
+(** [if twinI, cancelled := cancelledBy[polyI]; cancelled && twinI != innerI { continue }] *)
+Definition skipCancelled (cancelled : list (Z * Z)) (polyI innerI : Z) : bool :=
+  match cb_find cancelled polyI with Some twinI => negb (twinI =? innerI) | None => false end.
+
+(** per vertex: add the containing polygons (a cancelled polygon only for its twin), then look for a single winner *)
+Fixpoint matchVertices (cancelled : list (Z * Z)) (innerI : Z) (polys : list polygon) (verts : list pt)
+                       (counts : list (Z * Z)) : res (option Z * list (Z * Z)) :=
   match verts with
   | [] => Ok (None, counts)
   | v :: r =>
@@ -542,28 +576,30 @@ Fixpoint matchVertices (polys : list polygon) (verts : list pt) (counts : list (
                          match l with
                          | [] => Ok c
                          | p :: rest =>
-                             do outer <- idx p 0;
-                             do cb <- ringContains outer v;
-                             go rest (k + 1) (if fst cb then om_incr c k else c)
+                             if skipCancelled cancelled k innerI then go rest (k + 1) c
+                             else
+                               do outer <- idx p 0;
+                               do cb <- ringContains outer v;
+                               go rest (k + 1) (if fst cb then om_incr c k else c)
                          end in go polys 0 counts);
       let '(k, n) := maxWinners counts' in
-      if n =? 1 then Ok (Some k, counts') else matchVertices polys r counts'
+      if n =? 1 then Ok (Some k, counts') else matchVertices cancelled innerI polys r counts'
   end.
 
-Fixpoint matchInnersLoop (polys : list polygon) (innerRings : list ring) (sorted : option (list Z))
-                         (turned : list ring) : res (list polygon * list ring) :=
+Fixpoint matchInnersLoop (cancelled : list (Z * Z)) (innerI : Z) (polys : list polygon) (innerRings : list ring)
+                         (sorted : option (list Z)) (turned : list ring) : res (list polygon * list ring) :=
   match innerRings with
   | [] => Ok (polys, turned)
   | inner :: rest =>
-      do m <- matchVertices polys inner [];
+      do m <- matchVertices cancelled innerI polys inner [];
       match m with
-      | (Some k, _) => matchInnersLoop (append_inner polys k inner) rest sorted turned
+      | (Some k, _) => matchInnersLoop cancelled (innerI + 1) (append_inner polys k inner) rest sorted turned
       | (None, counts) =>
-          if (length counts =? 0)%nat then matchInnersLoop polys rest sorted (turned ++ [rev inner])
+          if (length counts =? 0)%nat then matchInnersLoop cancelled (innerI + 1) polys rest sorted (turned ++ [rev inner])
           else
             let srt := match sorted with Some s => s | None => sortPolyIdxsByOuterAreaDesc polys end in
             let k := lastMatch srt (map fst counts) in
-            matchInnersLoop (append_inner polys k inner) rest (Some srt) turned
+            matchInnersLoop cancelled (innerI + 1) (append_inner polys k inner) rest (Some srt) turned
       end
   end.
 
@@ -571,7 +607,8 @@ Definition matchInnersToPolygons (polys : list polygon) (innerRings : list ring)
   match innerRings with
   | [] => Ok polys
   | _ =>
-      do r <- matchInnersLoop polys innerRings None [];
+      do cancelled <- cancelledBy polys innerRings;
+      do r <- matchInnersLoop cancelled 0 polys innerRings None [];
       Ok (fst r ++ map (fun t => [t]) (snd r))
   end.
 
